@@ -47,7 +47,6 @@ inductive Val where
   | key (k : Key)           -- hash_t
   | fit (f : Fit)           -- fitness_t
   | slot (s : Slot)         -- cache::slot
-  | slots (l : List Slot)   -- a local std::vector<slot> (cache::load)
   | unit                    -- `return;`
   | bad                     -- ill-typed term: no meaning
 deriving Repr
